@@ -181,13 +181,17 @@ def _playback(dst, name, h):
     return vals
 
 
+# replay = a #[cfg(test)] module appended to the real source file in a scratch copy of /repo's current tree
+# (the functions are pub(crate), so a replay has to live inside the crate); {0}, {1}.. are the concrete values
 REPLAY_TEMPLATES = {
-    "k_from_alpha1": ("let s = String::from_utf8(vec![{0} as u8]).unwrap(); let got = umya_spreadsheet::helper::coordinate::column_index_from_string(&s); let want = ({0} as u32 - 64);",
-                      "column_index_from_string({s:?})"),
-    "k_from_alpha2": ("let s = String::from_utf8(vec![{0} as u8, {1} as u8]).unwrap(); let got = umya_spreadsheet::helper::coordinate::column_index_from_string(&s); let want = ({0} as u32 - 64) * 26 + ({1} as u32 - 64);", ""),
-    "k_from_alpha3": ("let s = String::from_utf8(vec![{0} as u8, {1} as u8, {2} as u8]).unwrap(); let got = umya_spreadsheet::helper::coordinate::column_index_from_string(&s); let want = ({0} as u32 - 64) * 676 + ({1} as u32 - 64) * 26 + ({2} as u32 - 64);", ""),
-    "k_to_alpha": ("let n: u32 = {0}; let got = umya_spreadsheet::helper::coordinate::string_from_column_index(&n); let want = {{ let mut v = Vec::new(); let mut x = n; while x > 0 {{ let r = (x - 1) % 26; v.push((65 + r) as u8); x = (x - 1) / 26; }} v.reverse(); String::from_utf8(v).unwrap() }};", ""),
-    "k_date_full": ("let (y, m, d): (i32, i32, i32) = ({0}, {1}, {2}); let got = umya_spreadsheet::helper::date::convert_date_windows_1900(y, m, d, 0, 0, 0); let want = {{ let yy = if m <= 2 {{ y - 1 }} else {{ y }}; let era = yy / 400; let yoe = yy - era * 400; let mp = (m + 9) % 12; let doy = (153 * mp + 2) / 5 + d - 1; let doe = yoe * 365 + yoe / 4 - yoe / 100 + doy; let serial = era * 146097 + doe - 719468 + 25569; (if y == 1900 && m <= 2 {{ serial - 1 }} else {{ serial }}) as f64 }};", ""),
+    "k_from_alpha1": ("src/helper/coordinate.rs", "let s = String::from_utf8(vec![{0} as u8]).unwrap(); let got = column_index_from_string(&s); let want = ({0} as u32 - 64);"),
+    "k_from_alpha2": ("src/helper/coordinate.rs", "let s = String::from_utf8(vec![{0} as u8, {1} as u8]).unwrap(); let got = column_index_from_string(&s); let want = ({0} as u32 - 64) * 26 + ({1} as u32 - 64);"),
+    "k_from_alpha3": ("src/helper/coordinate.rs", "let s = String::from_utf8(vec![{0} as u8, {1} as u8, {2} as u8]).unwrap(); let got = column_index_from_string(&s); let want = ({0} as u32 - 64) * 676 + ({1} as u32 - 64) * 26 + ({2} as u32 - 64);"),
+    "k_to_alpha": ("src/helper/coordinate.rs", "let n: u32 = {0}; let got = string_from_column_index(&n); let want = {{ let mut v = Vec::new(); let mut x = n; while x > 0 {{ let r = (x - 1) % 26; v.push((65 + r) as u8); x = (x - 1) / 26; }} v.reverse(); String::from_utf8(v).unwrap() }};"),
+    "k_date_full": ("src/helper/date.rs", "let (y, m, d): (i32, i32, i32) = ({0}, {1}, {2}); let got = convert_date_windows_1900(y, m, d, 0, 0, 0); let want = {{ let yy = if m <= 2 {{ y - 1 }} else {{ y }}; let era = yy / 400; let yoe = yy - era * 400; let mp = (m + 9) % 12; let doy = (153 * mp + 2) / 5 + d - 1; let doe = yoe * 365 + yoe / 4 - yoe / 100 + doy; let serial = era * 146097 + doe - 719468 + 25569; (if y == 1900 && m <= 2 {{ serial - 1 }} else {{ serial }}) as f64 }};"),
+    "k_shift_ins": ("src/helper/coordinate.rs", "let (n, p, k): (u32, u32, u32) = ({0}, {1}, {2}); let got = adjustment_insert_coordinate(&n, &p, &k); let want = if k != 0 && n >= p {{ n + k }} else {{ n }};"),
+    "k_shift_rem": ("src/helper/coordinate.rs", "let (n, p, k): (u32, u32, u32) = ({0}, {1}, {2}); let got = adjustment_remove_coordinate(&n, &p, &k); let want = if k != 0 && n >= p {{ n - k }} else {{ n }};"),
+    "k_shift_band": ("src/helper/coordinate.rs", "let (n, p, k): (u32, u32, u32) = ({0}, {1}, {2}); let got = is_remove_coordinate(&n, &p, &k); let want = p != 0 && k != 0 && p <= n && n < p + k;"),
 }
 
 
@@ -197,14 +201,14 @@ def write_replay(prop, kr):
     name = kr["harness"]
     vals = kr.get("playback")
     tmpl = REPLAY_TEMPLATES.get(name)
-    if vals and tmpl and len(vals) >= tmpl[0].count("{") - tmpl[0].count("{{") * 1 - 0 and _fits(tmpl[0], vals):
-        body = tmpl[0].format(*vals)
+    if vals and tmpl and _fits(tmpl[1], vals):
+        body = tmpl[1].format(*vals)
         path = os.path.join(d, "%s-%s.rs" % (prop, name))
         with open(path, "w") as fh:
-            fh.write("// replay of Kani counterexample for harness %s (property %s); inputs: %s\n" % (name, prop, vals))
-            fh.write("// run: ./check --replay %s  (builds this against /repo and runs it; exit 1 = still fails)\n" % path)
-            fh.write("fn main() {\n    %s\n    println!(\"got = {:?}, want = {:?}\", got, want);\n    if got != want { println!(\"REPLAY-FAILS\"); std::process::exit(1); }\n}\n" % body)
-        # confirm on the real code
+            fh.write("// replay-target: %s\n" % tmpl[0])
+            fh.write("// replay of the Kani counterexample for harness %s (property %s, function %s); concrete inputs: %s\n" % (name, prop, kr["fn"], vals))
+            fh.write("// run: ./check --replay %s   (appends this module to the real source file in a scratch copy of /repo's current tree and runs it; exit 1 = the real code still fails)\n" % path)
+            fh.write("#[cfg(test)]\nmod __verif_replay {\n    use super::*;\n    #[test]\n    fn replay() {\n        %s\n        println!(\"got = {:?}, want = {:?}\", got, want);\n        assert!(got == want, \"REPLAY-FAILS: got {:?}, want {:?}\", got, want);\n    }\n}\n" % body)
         rc = run_replay(path, os.environ.get("VERIF_REPO", "/repo"), quiet=True)
         if rc == 1:
             return path, True
@@ -213,7 +217,7 @@ def write_replay(prop, kr):
         fh.write("property: %s\nbackend: kani\nharness: %s\nfunction: %s\nobligation: kani/%s/%s\nkind: kani\n" % (
             prop, name, kr["fn"], kr["fn"], name))
         fh.write("failed-check: %s\nconcrete-values: %s\n" % (kr.get("failed_check", ""), vals))
-        fh.write("failing-input: %s\n" % ("see concrete-values (not replayed as a standalone program)" if vals else "none -- no-failing-input-found"))
+        fh.write("failing-input: %s\n" % ("see concrete-values (the standalone replay did not reproduce)" if vals else "none -- no-failing-input-found"))
         fh.write("\n---- verifier output ----\n%s\n" % kr.get("output", ""))
     return path, False
 
@@ -224,26 +228,33 @@ def _fits(t, vals):
 
 
 def run_replay(path, repo="/repo", quiet=False):
+    txt = open(path).read()
+    m = re.search(r"^// replay-target: (\S+)", txt, re.M)
+    if not m:
+        print("not a replay module")
+        return 2
     scratch = tempfile.mkdtemp(prefix="umya_verif_replay_")
     try:
-        os.makedirs(os.path.join(scratch, "src"))
-        shutil.copy(path, os.path.join(scratch, "src", "main.rs"))
-        with open(os.path.join(scratch, "Cargo.toml"), "w") as fh:
-            fh.write('[package]\nname = "replay"\nversion = "0.1.0"\nedition = "2021"\n[dependencies]\numya-spreadsheet = { path = "%s" }\n' % repo)
-        lock = os.path.join(repo, "Cargo.lock")
-        if os.path.exists(lock):
-            shutil.copy(lock, scratch)
+        dst = os.path.join(scratch, "crate")
+        subprocess.run(["rsync", "-a", "--exclude", "target", "--exclude", ".git", "--exclude", "images",
+                        repo.rstrip("/") + "/", dst + "/"], check=True)
+        tgt = os.path.join(dst, m.group(1))
+        if not os.path.exists(tgt):
+            print("replay target %s no longer exists" % m.group(1))
+            return 2
+        with open(tgt, "a") as fh:
+            fh.write("\n" + txt + "\n")
         env = dict(os.environ)
         env["CARGO_NET_OFFLINE"] = "true"
         env["CARGO_TARGET_DIR"] = os.path.join(scratch, "target")
-        p = subprocess.run(["cargo", "run", "--offline", "-q"], cwd=scratch, stdout=subprocess.PIPE,
-                           stderr=subprocess.STDOUT, timeout=1800, env=env)
+        p = subprocess.run(["cargo", "test", "--offline", "--lib", "__verif_replay", "--", "--nocapture"], cwd=dst, stdout=subprocess.PIPE,
+                           stderr=subprocess.STDOUT, timeout=2400, env=env)
         out = p.stdout.decode("utf-8", "replace")
         if not quiet:
-            print(out[-2000:])
-        if "REPLAY-FAILS" in out or (p.returncode not in (0,) and "panicked" in out):
+            print(out[-1500:])
+        if "REPLAY-FAILS" in out or re.search(r"test .*replay \.\.\. FAILED", out):
             return 1
-        if p.returncode == 0:
+        if re.search(r"test .*replay \.\.\. ok", out):
             return 0
         return 2
     finally:
